@@ -27,13 +27,13 @@ type (
 	// Service is what the generated glue registers for one goa service.
 	Service struct {
 		Name         string
-		Stub         any                                   // implements <svc>.Service (and Auther)
-		NewEndpoints func(stub any) any                    // <svc>.NewEndpoints
+		Stub         any                                            // implements <svc>.Service (and Auther)
+		NewEndpoints func(stub any) any                             // <svc>.NewEndpoints
 		Mount        func(eps any, mux goahttp.Muxer, o *MountOpts) // <svc>server.New + Mount
 		NewClient    func(scheme, host string, doer goahttp.Doer) any
 		MakeErr      map[string]func(error) *goa.ServiceError // <svc>.Make<Name>
-		Types        map[string]reflect.Type               // exported named struct types of the service package
-		Methods      []string                              // Go method names of the Service interface
+		Types        map[string]reflect.Type                  // exported named struct types of the service package
+		Methods      []string                                 // Go method names of the Service interface
 	}
 	MountOpts struct {
 		Dec func(*http.Request) goahttp.Decoder
@@ -107,6 +107,9 @@ type Runtime struct {
 	clients  map[string]any
 	current  sync.Map // goroutine-less correlation: scenario id -> *scnState
 }
+
+// mwLookup (-mwlookup): mount a middleware that looks the request up before routing (C20)
+var mwLookup bool
 
 var theRT = &Runtime{services: map[string]*Service{}, clients: map[string]any{}}
 
@@ -335,6 +338,18 @@ func Register(s *Service) { theRT.services[s.Name] = s }
 
 func (rt *Runtime) mount() {
 	rt.mux = goahttp.NewMuxer()
+	// a middleware that looks the request up before it is routed, as goa's debug and log middlewares do
+	rm := rt.mux.(goahttp.ResolverMuxer)
+	if mwLookup {
+		rm.Use(func(next http.Handler) http.Handler {
+			return http.HandlerFunc(func(w http.ResponseWriter, r *http.Request) {
+				if st := stateOf(r.Context()); st != nil {
+					st.add(Event{"ev": "mw_lookup", "vars": rm.Vars(r), "pattern": rm.ResolvePattern(r)})
+				}
+				next.ServeHTTP(w, r)
+			})
+		})
+	}
 	names := make([]string, 0, len(rt.services))
 	for n := range rt.services {
 		names = append(names, n)
@@ -462,6 +477,7 @@ func Main() {
 	par := flag.Int("parallel", 1, "number of goroutines running scenarios concurrently")
 	rounds := flag.Int("rounds", 1, "repeat the scenario list this many times (parallel mode)")
 	schedules := flag.String("schedules", "", "schedules to replay (ndjson): scenarios run K at a time, gated (sched.go)")
+	flag.BoolVar(&mwLookup, "mwlookup", false, "mount a middleware calling Vars/ResolvePattern before routing")
 	flag.Parse()
 	theRT.mount()
 	dumpMounts()
